@@ -9,6 +9,7 @@ import (
 	"runtime/debug"
 	"sort"
 	"strings"
+	"sync"
 	"testing"
 	"time"
 )
@@ -367,6 +368,54 @@ func TestVF_C01(t *testing.T) {
 			}
 			tops, specs := vfGenTree(c.R, cfg.Directory, maxSize, maxFiles)
 			vfFidelityCase(c, cfg, tops, specs, nil, nil)
+		}})
+	}
+	// a slow link: one data acknowledgement takes 2.5 s (the sender then lowers its buffer size and re-splits the
+	// chunks it had already prepared); nothing is lost, so the transfer must still complete with identical files
+	for k := 0; k < vfPick(4, 16); k++ {
+		k := k
+		id := fmt.Sprintf("slowack-%d", k)
+		if vfWinEnv {
+			id = fmt.Sprintf("slowackwin-%d", k)
+		}
+		cases = append(cases, vfCase{ID: id, Run: func(c *vfCtx) {
+			cfg := vfCfg{Dir: []string{"up", "down"}[k%2], Binary: k%4 >= 2, Timeout: 30, Quiet: true, Direct: k%3 == 0, Win: vfWinEnv, Compress: 2, Bufsize: []int64{10240, 20000}[k/2%2]} // many chunks: some are still queued when the buffer size drops
+			specs := []vfFileSpec{{Rel: "slow.bin", Size: 300000 + k*1000, Content: "rand"}, {Rel: "after.txt", Size: 2000, Content: "text"}}
+			var once sync.Once
+			nth := 4 + k%3
+			var lastT *trzszTransfer
+			vfFidelityCase(c, cfg, []string{"slow.bin", "after.txt"}, specs, nil, func(s *vfSession) {
+				lastT = s.st // the sender of a download
+				if cfg.Dir == "up" {
+					if cfg.Direct {
+						lastT = s.ct
+					} else {
+						lastT = nil
+					}
+				}
+			}, func(s *vfSession) {
+				w := s.srvW() // acknowledgements travel against the data
+				if cfg.Dir == "down" {
+					w = s.cliW()
+				}
+				seen := 0
+				w.SetGate(func(ev vfGateEvent) {
+					if ev.Before || ev.Type != "SUCC" {
+						return
+					}
+					seen++
+					if seen == nth+3 { // NUM/NAME/SIZE echoes come first
+						once.Do(func() {
+							c.Obs("slow_ack_delays_applied", 1)
+							time.Sleep(2500 * time.Millisecond)
+						})
+					}
+				})
+			})
+			c.Obs("slow_ack_cases", 1)
+			if t := lastT; t != nil {
+				c.Obs("slow_ack_final_buffer_size", t.bufferSize.Load())
+			}
 		}})
 	}
 	if !vfWinEnv {
